@@ -149,27 +149,9 @@ func frameBound(w *World, rd *ssa.Function) int64 {
 				}
 				break
 			}
-			f.Any(b, func(l Lit) bool {
-				bin, ok := l.V.(*ssa.BinOp)
-				if !ok {
-					return false
-				}
-				k, isK := intConst(bin.Y)
-				if !isK || bin.X != base {
-					return false
-				}
-				switch {
-				case bin.Op == token.GTR && !l.Pol:
-					bound = k
-				case bin.Op == token.GEQ && !l.Pol:
-					bound = k - 1
-				case bin.Op == token.LEQ && l.Pol:
-					bound = k
-				case bin.Op == token.LSS && l.Pol:
-					bound = k - 1
-				}
-				return false
-			})
+			if k := lengthBoundAt(w, rd, f, b, ms, base); k >= 0 {
+				bound = k
+			}
 		}
 	}
 	return bound
@@ -347,4 +329,55 @@ func funcBySignature(w *World, pkg string, paramSuffixes ...string) *ssa.Functio
 func (w *World) InRepoType(t types.Type) bool {
 	n := derefNamedT(t)
 	return n != nil && n.Obj().Pkg() != nil && strings.HasPrefix(n.Obj().Pkg().Path(), RepoMod)
+}
+
+// lengthBoundAt: the upper bound that the must-facts at block b put on the declared length base before the frame
+// buffer ms is made: a comparison of base itself with a constant, or the same comparison made by a size-check helper
+// on its parameter, the helper having been handed base by a call in rd that precedes the allocation. -1: none.
+func lengthBoundAt(w *World, rd *ssa.Function, f *Facts, b *ssa.BasicBlock, ms *ssa.MakeSlice, base ssa.Value) int64 {
+	numBase := func(v ssa.Value) ssa.Value {
+		for {
+			cv, ok := strip(v).(*ssa.Convert)
+			if !ok {
+				return strip(v)
+			}
+			v = cv.X
+		}
+	}
+	var bound int64 = -1
+	for l := range f.At(b) {
+		bin, ok := l.V.(*ssa.BinOp)
+		if !ok {
+			continue
+		}
+		k, isK := intConst(bin.Y)
+		if !isK {
+			continue
+		}
+		about := bin.X == base
+		if !about {
+			if p, isP := numBase(bin.X).(*ssa.Parameter); isP && p.Parent() != rd {
+				for _, site := range w.sitesIn(rd, p.Parent()) {
+					a := site.Common().Args
+					if paramIndex(p) < len(a) && numBase(a[paramIndex(p)]) == numBase(base) && site.Parent() == rd && InstrDominates(site.(ssa.Instruction), ms) {
+						about = true
+					}
+				}
+			}
+		}
+		if !about {
+			continue
+		}
+		switch {
+		case bin.Op == token.GTR && !l.Pol:
+			bound = k
+		case bin.Op == token.GEQ && !l.Pol:
+			bound = k - 1
+		case bin.Op == token.LEQ && l.Pol:
+			bound = k
+		case bin.Op == token.LSS && l.Pol:
+			bound = k - 1
+		}
+	}
+	return bound
 }
